@@ -451,6 +451,10 @@ def p7_exact_comparisons(run: Run, w: World) -> None:
         # (dimension of lhs, dimension of rhs, value kinds, must refuse?)  None = either is fine (a zero / infinite value matches any dimension)
         table = [(L_, L_, "finite", "finite", False), (Dim(), Dim(), "finite", "finite", False)]
         if all(is_q):
+            # one dimension written in two ways (joule vs newton*meter): equivalent, so comparable - a structural `==` on the dimensions would refuse them
+            E1 = Dim(Dim.of(mass=1, length=2, time=-2).exps, False, "energy")
+            E2 = Dim(Dim.of(mass=1, length=2, time=-2).exps, False, "force*length")
+            table.append((E1, E2, "finite", "finite", False))
             table += [(L_, T_, "finite", "finite", True), (L_, Dim(), "finite", "finite", True), (L_, T_, "zero", "finite", None), (L_, T_, "finite", "inf", None)]
         else:
             qi = is_q.index(True)
